@@ -5,6 +5,7 @@ package algo
 func init() {
 	verifRegister("VerifC41TreeStep", VerifC41TreeStep)
 	verifRegister("VerifC41TreeDeleteStep", VerifC41TreeDeleteStep)
+	verifRegister("VerifC41TreeDeleteShape", VerifC41TreeDeleteShape)
 	verifRegister("VerifC41TreeHistory", VerifC41TreeHistory)
 	verifRegister("VerifC41CircStep", VerifC41CircStep)
 	verifRegister("VerifC41CircHistory", VerifC41CircHistory)
@@ -217,6 +218,39 @@ func VerifC41TreeDeleteStep() {
 	verifAssert(na == 0, "delete-allocates-nothing")
 	verifAssert((nd == 1) == removed && nd <= 1, "frees-exactly-the-removed-node")
 	verifTreeAgainstModel(&t, kvs, probe)
+}
+
+// VerifC41TreeDeleteShape: the structural half of VerifC41TreeDeleteStep without the observer probes (Get/Front/Back fork on every
+// comparison and multiply the paths by ~30): one Delete of ANY key from ANY valid AVL tree of height exactly HD, then the AVL
+// invariant (balance, exact heights), the in-order contents against the model and the allocation accounting. Small enough to be
+// exhaustive at height 4 in the quick tier.
+func VerifC41TreeDeleteShape() {
+	h := verifParam("HD", 4)
+	var prev int32
+	var have bool
+	var kvs []verifKV
+	root := verifBuildAVL(h, &prev, &have, &kvs)
+	var na, nd int
+	var last *verifNode
+	t := NewTreeMap[int32, int32, verifCmp](verifAlloc{&na, &nd, &last})
+	t.root = root
+	k := verifI32()
+	verifCover("delete-shape")
+	t.Delete(k)
+	var removed bool
+	kvs, removed = verifModelDelete(kvs, k)
+	verifAssert(na == 0, "delete-allocates-nothing")
+	verifAssert((nd == 1) == removed && nd <= 1, "frees-exactly-the-removed-node")
+	var keys, vals []int32
+	budget := len(kvs) + 1
+	verifCheckAVL(t.root, &keys, &vals, &budget)
+	verifAssert(len(keys) == len(kvs), "size-matches-model")
+	if len(keys) == len(kvs) {
+		for i := range keys {
+			verifAssert(keys[i] == kvs[i].k, "inorder-keys-match-model")
+			verifAssert(vals[i] == kvs[i].v, "inorder-values-match-model")
+		}
+	}
 }
 
 // VerifC41TreeHistory: K arbitrary operations from the empty map against the association-list model.
